@@ -241,7 +241,7 @@ func runC09(cx *ctx) {
 	// --- printing and round trip on random and boundary keys
 	var keys [][]byte
 	keys = append(keys, make([]byte, 32), bytes.Repeat([]byte{0xff}, 32), bytes.Repeat([]byte{0x42}, 32))
-	for i := 0; i < cx.n(300, 4000); i++ {
+	for i := 0; i < cx.n(2000, 30000); i++ {
 		keys = append(keys, r.Bytes(32))
 	}
 	for _, k := range keys {
@@ -255,7 +255,7 @@ func runC09(cx *ctx) {
 	}
 
 	// --- substitutions of valid native strings
-	nBase := cx.n(1, 3)
+	nBase := cx.n(3, 12)
 	for bi := 0; bi < nBase; bi++ {
 		k := r.Bytes(32)
 		rec := b32Build("age", to5(k), false)
@@ -286,7 +286,7 @@ func runC09(cx *ctx) {
 			}
 			// sampled 2..4 substitutions, mostly inside the data part and the data alphabet
 			dataStart := strings.LastIndex(base.s, "1") + 1
-			for i := 0; i < cx.n(1500, 40000); i++ {
+			for i := 0; i < cx.n(10000, 250000); i++ {
 				w := 2 + r.Intn(3)
 				var pos []int
 				var chars []byte
@@ -318,7 +318,7 @@ func runC09(cx *ctx) {
 				mk(fmt.Sprintf("subst%d", w), substitute(base.s, pos, chars), fmt.Sprintf("%d substitutions at %v", w, pos))
 			}
 			// burst errors: 2..4 adjacent symbols
-			for i := 0; i < cx.n(200, 3000); i++ {
+			for i := 0; i < cx.n(1000, 20000); i++ {
 				w := 2 + r.Intn(3)
 				p0 := dataStart + r.Intn(len(base.s)-dataStart-w+1)
 				var pos []int
@@ -454,8 +454,103 @@ func runC09(cx *ctx) {
 		}
 	}
 
+	// --- oracle-only bulk runs on the real parsers (no model): every double substitution inside
+	// the data part of one printed recipient and one printed identity over the data alphabet
+	// (exhaustive in thorough: 58·57/2·31² = 1.59 million strings each), and sampled triple and
+	// quadruple substitutions; one case per batch
+	{
+		k := r.Bytes(32)
+		rec := b32Build("age", to5(k), false)
+		id := asciiUpper(b32Build("age-secret-key-", to5(k), false))
+		for _, base := range []struct {
+			s  string
+			id bool
+		}{{rec, false}, {id, true}} {
+			base := base
+			accept := func(s string) bool {
+				if base.id {
+					_, err := age.ParseX25519Identity(s)
+					return err == nil
+				}
+				_, err := age.ParseX25519Recipient(s)
+				return err == nil
+			}
+			alpha := b32Charset
+			if base.id {
+				alpha = asciiUpper(alpha)
+			}
+			kindSfx := "-recipient"
+			if base.id {
+				kindSfx = "-identity"
+			}
+			start := strings.LastIndex(base.s, "1") + 1
+			for p1 := start; p1 < len(base.s); p1++ {
+				p1 := p1
+				if cx.quick && r.Intn(8) != 0 {
+					continue
+				}
+				cx.ru.Do(func() *h.Case {
+					b := []byte(base.s)
+					n, oracle := 0, ""
+					for p2 := p1 + 1; p2 < len(b); p2++ {
+						for i := 0; i < 32; i++ {
+							if alpha[i] == base.s[p1] {
+								continue
+							}
+							b[p1] = alpha[i]
+							for j := 0; j < 32; j++ {
+								if alpha[j] == base.s[p2] {
+									continue
+								}
+								b[p2] = alpha[j]
+								n++
+								if accept(string(b)) && oracle == "" {
+									oracle = fmt.Sprintf("%q, which differs from the printed %q in 2 characters, was accepted", string(b), base.s)
+								}
+							}
+							b[p2] = base.s[p2]
+						}
+						b[p1] = base.s[p1]
+					}
+					return &h.Case{Kind: "subst2-exhaustive-batch" + kindSfx, Impl: fmt.Sprintf("rejected=%d", n), Oracle: oracle, NonTrivial: true,
+						Note: fmt.Sprintf("all double substitutions with first position %d in %q", p1, base.s)}
+				})
+			}
+			for bi := 0; bi < cx.n(40, 3000); bi++ {
+				rr := r.Fork()
+				cx.ru.Do(func() *h.Case {
+					b := []byte(base.s)
+					n, oracle := 0, ""
+					for it := 0; it < 5000; it++ {
+						copy(b, base.s)
+						w := 3 + rr.Intn(2)
+						changed := 0
+						for changed < w {
+							p := start + rr.Intn(len(b)-start)
+							if b[p] != base.s[p] {
+								continue
+							}
+							c := alpha[rr.Intn(32)]
+							if c == base.s[p] {
+								continue
+							}
+							b[p] = c
+							changed++
+						}
+						n++
+						if accept(string(b)) && oracle == "" {
+							oracle = fmt.Sprintf("%q, which differs from the printed %q in %d characters, was accepted", string(b), base.s, w)
+						}
+					}
+					return &h.Case{Kind: "subst34-sampled-batch" + kindSfx, Impl: fmt.Sprintf("rejected=%d", n), Oracle: oracle, NonTrivial: true,
+						Note: fmt.Sprintf("5000 random triple/quadruple substitutions of %q (batch %d)", base.s, rr.Intn(1<<30))}
+				})
+			}
+		}
+	}
+
 	// --- the bech32 package itself: encode
-	for i := 0; i < cx.n(1500, 20000); i++ {
+	for i := 0; i < cx.n(20000, 300000); i++ {
 		rr := r.Fork()
 		cx.ru.Do(func() *h.Case {
 			n := rr.Intn(9)
@@ -480,7 +575,7 @@ func runC09(cx *ctx) {
 		})
 	}
 	// --- decode: valid strings and damaged ones, arbitrary HRPs, both cases
-	for i := 0; i < cx.n(3000, 40000); i++ {
+	for i := 0; i < cx.n(40000, 600000); i++ {
 		rr := r.Fork()
 		cx.ru.Do(func() *h.Case {
 			hrp := randName(rr, 1+rr.Intn(8), rr.Intn(5))
@@ -544,7 +639,7 @@ func runC09(cx *ctx) {
 	}
 
 	// --- plugin strings
-	for i := 0; i < cx.n(1500, 20000); i++ {
+	for i := 0; i < cx.n(20000, 300000); i++ {
 		rr := r.Fork()
 		cx.ru.Do(func() *h.Case {
 			style := rr.Intn(5)
@@ -569,7 +664,7 @@ func runC09(cx *ctx) {
 			return pencCase(rr.Bool(), name, rr.Bytes(dn))
 		})
 	}
-	for i := 0; i < cx.n(3000, 40000); i++ {
+	for i := 0; i < cx.n(40000, 600000); i++ {
 		rr := r.Fork()
 		cx.ru.Do(func() *h.Case {
 			style := rr.Intn(5)
